@@ -161,6 +161,27 @@ def entry_points(j, version, allow, is_observable_type):
         return sink_content(s)
     eps.append(("MemorySink.add(version=)", msink_add))
 
+    if version is None:
+        # a version named at CONSTRUCTION (with no data) says nothing about later calls that name none: those detect, as a direct parse does
+        def later_call(cls, w, how):
+            def f():
+                s = cls(version=w, **kw)
+                if how == "add":
+                    s.add(J())
+                else:
+                    d = sc.fresh()
+                    p = os.path.join(d, "in.json")
+                    with open(p, "w") as fh:
+                        json.dump(j, fh)
+                    s.load_from_file(p)
+                return sink_content(s) if cls is MemorySink else back(s)
+            return f
+        for w in ("2.0", "2.1"):
+            eps.append(("MemoryStore(version=%s).add()" % w, later_call(MemoryStore, w, "add")))
+            eps.append(("MemorySink(version=%s).add()" % w, later_call(MemorySink, w, "add")))
+            eps.append(("MemoryStore(version=%s).load_from_file()" % w, later_call(MemoryStore, w, "load")))
+            eps.append(("MemorySource(version=%s).load_from_file()" % w, later_call(MemorySource, w, "load")))
+
     def load_file(cls):
         def f():
             d = sc.fresh()
@@ -305,7 +326,53 @@ def entry_points(j, version, allow, is_observable_type):
     return eps
 
 
+def run_envelopes(case, part):
+    """the bundle ENVELOPE handed to a file-system sink under a named version is judged like a direct parse of that envelope under that version (accepted / refused);
+    a refused envelope leaves nothing written"""
+    import stix2
+    from stix2 import FileSystemSink
+    env.reset()
+    sc = Scratch.get()
+    member = {"type": "identity", "id": "identity--3f7f0c5f-5d54-4292-94ea-ec1e1952be21", "created": "2020-01-01T00:00:00.000Z", "modified": "2020-01-01T00:00:00.000Z", "name": "n", "identity_class": "individual"}
+    envs = {"id-v4": {"id": "bundle--3f7f0c5f-5d54-4292-94ea-ec1e1952be22"}, "id-v1": {"id": "bundle--e1d2f3a4-5b6c-11ea-8d7e-0123456789ab"}, "id-malformed": {"id": "bundle--zzz"},
+            "id-of-another-type": {"id": "identity--3f7f0c5f-5d54-4292-94ea-ec1e1952be22"}, "no-id": {}, "unknown-property": {"id": "bundle--3f7f0c5f-5d54-4292-94ea-ec1e1952be22", "foo": 1},
+            "spec_version-2.0": {"id": "bundle--3f7f0c5f-5d54-4292-94ea-ec1e1952be22", "spec_version": "2.0"}, "spec_version-2.1": {"id": "bundle--3f7f0c5f-5d54-4292-94ea-ec1e1952be22", "spec_version": "2.1"},
+            "spec_version-junk": {"id": "bundle--3f7f0c5f-5d54-4292-94ea-ec1e1952be22", "spec_version": "9.9"}}
+    for ename, extra in envs.items():
+        for msv in (None, "2.1"):
+            m = dict(member, **({"spec_version": msv} if msv else {}))
+            bj = dict({"type": "bundle", "objects": [m]}, **extra)
+            for version in (None, "2.0", "2.1"):
+                for allow in (False, True):
+                    try:
+                        stix2.parse(copy.deepcopy(bj), version=version, allow_custom=allow)
+                        want = "accepted"
+                    except Exception:
+                        want = "refused"
+                    for form in ("dict", "text", "list-of-dict"):
+                        part.evaluations += 1
+                        part.transitions += 1
+                        d = sc.fresh()
+                        sink = FileSystemSink(d, allow_custom=allow)
+                        arg = copy.deepcopy(bj) if form == "dict" else json.dumps(bj) if form == "text" else [copy.deepcopy(bj)]
+                        try:
+                            sink.add(arg, version=version)
+                            got = "accepted"
+                        except Exception as e:
+                            got = "refused"
+                        written = any(fn for _, _, fn in os.walk(d))
+                        part.state(("envelope", ename, msv, version, allow, form, got), nontrivial=True)
+                        part.outcome("envelope:" + got)
+                        c = {"kind": "envelopes", "envelope": ename, "member_spec_version": msv, "version": version, "allow_custom": allow, "form": form}
+                        if got != want:
+                            part.violation("C14/envelope-differs-from-direct-parse/%s/%s" % (ename, "named=%s" % version), "a bundle envelope handed to a file-system sink is not judged like a direct parse under the same version", c, want, got)
+                        elif got == "refused" and written:
+                            part.violation("C14/refused-envelope-written/%s" % ename, "a refused bundle left files behind", c, "nothing written", "files written")
+
+
 def run_case(case, part):
+    if case.get("kind") == "envelopes":
+        return run_envelopes(case, part)
     import stix2
     env.reset()
     cver, key = case["content_version"], case["key"]
@@ -469,6 +536,8 @@ def run_case(case, part):
 
 
 def replay(case, part):
+    if case.get("kind") == "envelopes":
+        return run_envelopes({"kind": "envelopes"}, part)
     run_case({k: case[k] for k in ("content_version", "key", "member_claims") if k in case}, part)
 
 
@@ -478,6 +547,7 @@ def run(run):
         g = gen.Gen(cver)
         for key in g.top_keys():
             cases.append({"content_version": cver, "key": key})
+    cases.append({"kind": "envelopes"})
     cases.append({"content_version": "2.0", "key": "objects:observed-data", "member_claims": "2.1"})
     cases.append({"content_version": "2.1", "key": "objects:observed-data", "member_claims": "2.0"})
     run.mode = "DEV (differential)"
